@@ -2,6 +2,7 @@
    proxy/http.go) and how the outcome surfaces at the client through the gin and mux
    endpoint handlers.  Executable model only. *)
 Require Import Verif.Common.Base Verif.Common.Json.
+From Coq Require Import DecimalString.
 
 (* a value found (or not) under a key of the backend's extra_config namespace *)
 Inductive cfgval := VAbsent | VStr (s : string) | VBool (b : bool) | VOtherType.
@@ -41,9 +42,13 @@ Inductive perr := ENone | EInvalidStatus | ECode (code : Z) (msg enc : string) |
 Record presp := { p_data : obj; p_complete : bool; p_status : Z }.
 Definition pout := (option presp * perr)%type.
 
-(* serialisation of HTTPResponseError (json tags, omitempty on body and encoding) *)
-Definition z_lit (z : Z) : string :=
-  (* only used for 100..599; decimal text *)
+(* serialisation of HTTPResponseError (json tags, omitempty on body and encoding).
+   z_lit: the decimal text encoding/json writes for an int - every integer, signed.
+   z_lit3 is the three-digit printer the first version of this model used; Proof/C12.v shows
+   that both agree on 0..999. *)
+Definition z_lit (z : Z) : string := NilZero.string_of_int (Z.to_int z).
+
+Definition z_lit3 (z : Z) : string :=
   let d (n : Z) := String (ascii_of_N (Z.to_N (48 + n))) "" in
   (if (z <? 10)%Z then d z
    else if (z <? 100)%Z then d (z / 10)%Z ++ d (z mod 10)%Z
@@ -140,3 +145,175 @@ Definition client_multi (i : impl) (ms : list (mode * reply * option obj)) : cob
   let '(resp, anyerr) := merge_outs outs in
   let texts := flat_map (fun o => match snd o with ENone => [] | e => [err_text e] end) outs in
   client_of i resp (if anyerr then Some (500%Z, join_nl texts) else None).
+
+(* ======================================================================================
+   Extension: mode selection from the RAW extra_config map, the endpoint-level stages that
+   sit between the merger and the router (flatmap_filter, static data), the router family
+   (gin with and without return_error_msg, behind middleware that already recorded c.Error
+   entries; the mux handler mounted on the mux, chi, gorilla, httptreemux and negroni
+   engines).
+   ====================================================================================== *)
+
+(* ---- GetHTTPStatusHandler over the raw map (config values as decoded JSON; a Go value of a
+   type that JSON decoding never yields is a JOther) ---- *)
+Definition ns_http : string := "github.com/devopsfaith/krakend/http".
+Definition key_details : string := "return_error_details".
+Definition key_code : string := "return_error_code".
+
+Definition status_mode_raw (extra : obj) : mode :=
+  match lookup ns_http extra with
+  | Some (JObj m) =>
+      match lookup key_details m with
+      | Some v =>                       (* key present: return_error_code is not consulted *)
+          match v with
+          | JStr b => if str_eqb b "" then MDefault else MDetails b
+          | _ => MDefault
+          end
+      | None =>
+          match lookup key_code m with
+          | Some (JBool true) => MErrorCode
+          | _ => MDefault
+          end
+      end
+  | _ => MDefault                       (* no namespace, or its value is not a map *)
+  end.
+
+(* the digest the first version of the model started from *)
+Definition cfgval_of (v : option json) : cfgval :=
+  match v with
+  | None => VAbsent
+  | Some (JStr s) => VStr s
+  | Some (JBool b) => VBool b
+  | Some _ => VOtherType
+  end.
+
+(* ---- endpoint level extra_config (namespace of the proxy package) ---- *)
+Definition ns_proxy : string := "github.com/devopsfaith/krakend/proxy".
+
+(* newFlatmapFormatter: a formatter exists iff flatmap_filter is a non-empty list with at
+   least one map entry whose "type" is a string.  The operations themselves belong to the
+   formatter (outside C12): the harness only declares operations that leave the data as it
+   is (deleting an absent key, an unknown operation type), so the formatter is the identity
+   here and what matters is what the MIDDLEWARE does with (response, error). *)
+Definition flatmap_active (epx : obj) : bool :=
+  match lookup ns_proxy epx with
+  | Some (JObj e) =>
+      match lookup "flatmap_filter" e with
+      | Some (JArr vs) =>
+          existsb (fun v => match v with
+                            | JObj m => match lookup "type" m with Some (JStr _) => true | _ => false end
+                            | _ => false end) vs
+      | _ => false
+      end
+  | _ => false
+  end.
+
+(* getStaticMiddlewareCfg: (strategy name, data) *)
+Definition static_cfg (epx : obj) : option (string * obj) :=
+  match lookup ns_proxy epx with
+  | Some (JObj e) =>
+      match lookup "static" e with
+      | Some (JObj tmp) =>
+          match lookup "data" tmp with
+          | Some (JObj data) =>
+              Some (match lookup "strategy" tmp with Some (JStr n) => n | _ => "always" end, data)
+          | _ => None
+          end
+      | _ => None
+      end
+  | _ => None
+  end.
+
+(* what travels from the proxy stack to the router: (response, error); the error as the
+   status it maps to and its text.  EPanic: a nil response dereferenced (flatmap middleware
+   handed (nil, nil)) - Proof/C12.v shows it is unreachable from the merger. *)
+Inductive eout := EOut (resp : option presp) (err : option (Z * string)) | EPanic.
+
+(* NewFlatmapMiddleware (only built for endpoints with several backends): an error passes
+   through together with the partial response; otherwise the formatter runs on *resp *)
+Definition flat_stage (active : bool) (x : eout) : eout :=
+  if active then
+    match x with
+    | EOut (Some p) None => EOut (Some p) None
+    | EOut None None => EPanic
+    | _ => x
+    end
+  else x.
+
+Definition static_match (name : string) (resp : option presp) (err : bool) : bool :=
+  if str_eqb name "success" then negb err
+  else if str_eqb name "errored" then err
+  else if str_eqb name "complete" then
+    negb err && match resp with Some p => p_complete p | None => false end
+  else if str_eqb name "incomplete" then
+    match resp with Some p => negb (p_complete p) | None => true end
+  else true.                             (* "always" and every unknown name *)
+
+Definition overlay (data base : obj) : obj :=
+  fold_left (fun acc kv => set (fst kv) (snd kv) acc) data base.
+
+(* NewStaticMiddleware *)
+Definition static_stage (st : option (string * obj)) (x : eout) : eout :=
+  match st, x with
+  | Some (name, data), EOut resp err =>
+      if static_match name resp (match err with Some _ => true | None => false end) then
+        let p := match resp with
+                 | Some p => p
+                 | None => {| p_data := []; p_complete := false; p_status := 0 |}
+                 end in
+        EOut (Some {| p_data := overlay data (p_data p); p_complete := p_complete p;
+                      p_status := p_status p |}) err
+      else x
+  | _, _ => x
+  end.
+
+(* proxy.NewDefaultFactory(...).New(endpoint) for the backends b0 :: rest *)
+Definition backend := (mode * reply * option obj)%type.
+
+Definition single_out (b : backend) : eout :=
+  let '(m, r, d) := b in
+  let '(resp, e) := http_proxy_outcome m r d in EOut resp (err_of_single e).
+
+Definition multi_out (ms : list backend) : eout :=
+  let outs := map (fun x => let '(m, r, d) := x in http_proxy_outcome m r d) ms in
+  let '(resp, anyerr) := merge_outs outs in
+  let texts := flat_map (fun o => match snd o with ENone => [] | e => [err_text e] end) outs in
+  EOut resp (if anyerr then Some (500%Z, join_nl texts) else None).
+
+Definition endpoint_out (epx : obj) (b0 : backend) (rest : list backend) : eout :=
+  static_stage (static_cfg epx)
+    (match rest with
+     | [] => single_out b0
+     | _ => flat_stage (flatmap_active epx) (multi_out (b0 :: rest))
+     end).
+
+(* ---- routers ---- *)
+Inductive router :=
+| RGin (return_error_msg : bool)       (* gin engine; the flag is the router option *)
+| RMux | RChi | RGorilla | RTreemux | RNegroni.   (* all mount mux.CustomEndpointHandler *)
+
+Definition impl_of (rt : router) : impl := match rt with RGin _ => Gin | _ => Mux end.
+
+(* what the client sees when the handler panics: nothing of the model's business; a marker *)
+Definition panicked : cobs := {| c_status := 0; c_completed := "panic"; c_body := BRaw "" |}.
+
+(* prior: the c.Errors entries recorded by earlier middleware.  The handler walks them for
+   logging only (the loop variable shadows the proxy's error), so they do not show. *)
+Definition client_of_router (rt : router) (prior : list string)
+           (resp : option presp) (err : option (Z * string)) : cobs :=
+  match rt, resp, err with
+  | RGin true, None, Some (st, txt) =>
+      (* ErrorResponseWriter: the error text is the body *)
+      {| c_status := st; c_completed := "false"; c_body := BRaw txt |}
+  | _, _, _ => client_of (impl_of rt) resp err
+  end.
+
+Definition client_endpoint (rt : router) (prior : list string) (epx : obj)
+           (b0 : backend) (rest : list backend) : cobs :=
+  match endpoint_out epx b0 rest with
+  | EOut resp err => client_of_router rt prior resp err
+  | EPanic => panicked
+  end.
+
+Definition backend_of_raw (x : obj * reply * option obj) : backend :=
+  let '(extra, r, d) := x in (status_mode_raw extra, r, d).
